@@ -142,6 +142,7 @@ func (fc *FnCtx) doCallInner(fr *Frame, st *State, instr ssa.Instruction, c *ssa
 			return fc.applyContract(fr, st, instr, fs, nil, c.Signature(), nil, args, rt, pos)
 		}
 		fc.havocCallees["<func value "+c.Value.Name()+" in "+fr.fn.Name()+">"] = true
+		fc.havocPointees(fr, st, c, args)
 		return havocRes("fv")
 	}
 	mname := calleeModelName(callee)
@@ -162,13 +163,45 @@ func (fc *FnCtx) doCallInner(fr *Frame, st *State, instr ssa.Instruction, c *ssa
 		return fc.applyContract(fr, st, instr, spec, callee, callee.Signature, bindings, args, rt, pos)
 	}
 	// inline: closures called directly, functions flagged inline, tiny getters
-	if callee.Blocks != nil && fr.depth < maxInlineDepth && (callee.Parent() != nil || (spec != nil && spec.Inline)) {
+	if callee.Blocks != nil && fr.depth < maxInlineDepth && (callee.Parent() != nil || (spec != nil && spec.Inline) || isPbGetter(callee)) {
 		return fc.inlineCall(fr, st, instr, callee, spec, bindings, args, rt)
 	}
 	fc.havocCallees[dname] = true
 	// frame: havoc what the callee may write (syntactic write set)
 	fc.havocSet(st, fc.eng.writeSet(callee))
 	return havocRes("call_" + callee.Name())
+}
+
+// havocPointees: an unknown callee may write through every pointer it is handed: repo structs lose the
+// contents of their fields, local cells their value.
+func (fc *FnCtx) havocPointees(fr *Frame, st *State, c *ssa.CallCommon, args []Val) {
+	ws := writeSetT{}
+	for i, a := range c.Args {
+		pt, ok := unalias(a.Type()).Underlying().(*types.Pointer)
+		if !ok {
+			continue
+		}
+		if n, ok := isStructVal(pt.Elem()); ok && namedPath(pt.Elem()) != "time.Time" {
+			structInitWrites(n, ws, 0, wFull)
+			continue
+		}
+		if i < len(args) {
+			if pv, ok := args[i].(*PtrVal); ok && pv.Kind == PCell {
+				st.cells[pv.Cell] = fc.havocValue(st, "escaped", pt.Elem())
+			}
+		}
+	}
+	if len(ws) > 0 {
+		fc.havocSet(st, ws)
+	}
+}
+
+// isPbGetter: generated protobuf accessors (GetOrigin, GetHash, GetData, ...) are executed in place.
+func isPbGetter(fn *ssa.Function) bool {
+	if o := fn.Origin(); o != nil {
+		fn = o
+	}
+	return fn.Pkg != nil && fn.Pkg.Pkg.Path() == repoModule+"/p2p/pb" && strings.HasPrefix(fn.Name(), "Get") && fn.Signature.Recv() != nil
 }
 
 func isNoopCallee(fn *ssa.Function) bool {
@@ -339,7 +372,8 @@ func (fc *FnCtx) applyContract(fr *Frame, st *State, instr ssa.Instruction, spec
 		}
 	}
 	fc.havocForContract(st, ws)
-	if spec.MayPanic {
+	// inside a function written to contain panics (deferred recover) every repo callee may panic
+	if spec.MayPanic || (callee != nil && fc.topFrame != nil && fnRecovers(fc.topFrame.fn)) {
 		ps := st.clone()
 		pc := fc.fresh("panics", SBool)
 		ps.pc = tAnd(st.pc, pc)
@@ -475,7 +509,25 @@ func (fc *FnCtx) doInvoke(fr *Frame, st *State, instr ssa.Instruction, c *ssa.Ca
 			} else {
 				fc.assumptions["A-total: the header type's "+method+" does not panic where no recover() is in scope (in "+fc.name+")"] = true
 			}
-			return havocRes("hdr_" + method)
+			res := havocRes("hdr_" + method)
+			// history predicates: validated(h) / decodedFrom(h, bytes) hold once the call returned nil
+			if rt2, ok := res.(Term); ok && rt2.Sort == SErr {
+				switch method {
+				case "Validate":
+					fc.decls.fun("sp_validated", []string{SHdr}, SBool)
+					fc.assume(st, tImp(tEq(rt2, T(SErr, "nilErr")), app(SBool, "sp_validated", h)))
+					fc.assumptions["history predicate validated(h): h.Validate() returned nil at some earlier point (defined at the call's exit, used positively only)"] = true
+				case "UnmarshalBinary":
+					if len(args) > 0 {
+						if b, ok := args[0].(Term); ok && b.Sort == SBytes {
+							fc.decls.fun("sp_decodedFrom", []string{SHdr, SBytes}, SBool)
+							fc.assume(st, tImp(tEq(rt2, T(SErr, "nilErr")), app(SBool, "sp_decodedFrom", h, b)))
+							fc.assumptions["history predicate decodedFrom(h, b): h.UnmarshalBinary(b) returned nil (defined at the call's exit, used positively only)"] = true
+						}
+					}
+				}
+			}
+			return res
 		}
 		return havocRes("hdr_" + method)
 	}
@@ -696,9 +748,17 @@ func (fc *FnCtx) doAppend(fr *Frame, st *State, instr ssa.Instruction, c *ssa.Ca
 	es := sortOf(unalias(resT).Underlying().(*types.Slice).Elem())
 	hn := elemHeapName(es)
 	h := fc.heapRaw(st, hn, arrSort(SInt, arrSort(SInt, es)))
-	// elements to append
+	// elements to append: the variadic argument of append(s, x, y) is a slice of a local array literal
 	var elems []Term
-	switch a := args[1].(type) {
+	arg1 := args[1]
+	if sl, ok := c.Args[1].(*ssa.Slice); ok && sl.Low == nil && sl.High == nil {
+		if al, ok := sl.X.(*ssa.Alloc); ok {
+			if av, ok := st.cells[cellKey{fr.id, al}].(*ArrVal); ok {
+				arg1 = av
+			}
+		}
+	}
+	switch a := arg1.(type) {
 	case *ArrVal:
 		for _, e := range a.Elems {
 			et, ok := e.(Term)
@@ -757,8 +817,14 @@ func (fc *FnCtx) appendSlice(st *State, s, t Term, es, hn string, resT types.Typ
 	fresharr := fc.fresh("apparrc", arrSort(SInt, es))
 	sb := tSelect(h, slArr(s))
 	tb := tSelect(h, slArr(t))
-	fc.assume(st, T(SBool, fmt.Sprintf("(forall ((k Int)) (! (and (=> (and (<= 0 k) (< k %s)) (= (select %s k) (select %s (+ %s k)))) (=> (and (<= %s k) (< k %s)) (= (select %s k) (select %s (+ %s (- k %s)))))) :pattern ((select %s k))))",
-		slLen(s).S, fresharr.S, sb.S, slOff(s).S, slLen(s).S, nl.S, fresharr.S, tb.S, slOff(t).S, slLen(s).S, fresharr.S)))
+	qdef := T(SBool, fmt.Sprintf("(forall ((k Int)) (! (and (=> (and (<= 0 k) (< k %s)) (= (select %s k) (select %s (+ %s k)))) (=> (and (<= %s k) (< k %s)) (= (select %s k) (select %s (+ %s (- k %s)))))) :pattern ((select %s k))))",
+		slLen(s).S, fresharr.S, sb.S, slOff(s).S, slLen(s).S, nl.S, fresharr.S, tb.S, slOff(t).S, slLen(s).S, fresharr.S))
+	// the same definition as an array lambda for the z3 family (decided by beta-reduction); cvc5 gets the
+	// quantified twin (it has no array lambdas), z3 only the lambda (the quantified form made it diverge)
+	junk := fc.fresh("appjunk", arrSort(SInt, es))
+	ldef := T(SBool, fmt.Sprintf("(= %s (lambda ((k Int)) (ite (and (<= 0 k) (< k %s)) (select %s (+ %s k)) (ite (and (<= %s k) (< k %s)) (select %s (+ %s (- k %s))) (select %s k)))))",
+		fresharr.S, slLen(s).S, sb.S, slOff(s).S, slLen(s).S, nl.S, tb.S, slOff(t).S, slLen(s).S, junk.S))
+	fc.assertions = append(fc.assertions, "#cvc5#"+tImp(st.pc, qdef).S, "#z3#"+tImp(st.pc, ldef).S)
 	fc.setHeap(st, hn, tStore(h, newArr, fresharr))
 	fc.assumptions["append(s, t...) is modelled as always reallocating (writes into spare capacity of s are not visible through s's other aliases)"] = true
 	return fc.nameTerm("app", mkSlice(newArr, intLit(0), nl, newCap))
@@ -875,7 +941,14 @@ func (fc *FnCtx) execGo(fr *Frame, st *State, x *ssa.Go) {
 	if mc, ok := c.Value.(*ssa.MakeClosure); ok {
 		for i, fv := range callee.FreeVars {
 			if i < len(mc.Bindings) {
-				env.bindFreeVar(fv.Name(), fc.value(fr, st, mc.Bindings[i]), fv.Type())
+				// the callee's contract refers to captured variables by name: bind their current values
+				bv := fc.value(fr, st, mc.Bindings[i])
+				elem := fv.Type().(*types.Pointer).Elem()
+				if _, isS := isStructVal(elem); isS && namedPath(elem) != "time.Time" {
+					env.bind(fv.Name(), bv, elem)
+				} else {
+					env.bind(fv.Name(), fc.load(st, bv, elem, x), elem)
+				}
 			}
 		}
 	}
